@@ -404,4 +404,24 @@ theorem participation_rotation_eq (n : Nat) (current_participation : List Nat) (
 /-- non-vacuity -/
 example : ∃ (n : Nat) (p : List Nat), p ≠ [] ∧ p.length = n := ⟨2, [0, 7], by simp, rfl⟩
 
+/-! ## Sync-committee rotation -/
+
+/-- `syncCommittee_rotation_eq`: `common.ComputeSyncCommitteeIndices` (the hash of the random-byte source cached and
+refreshed every 32 candidates) selects what `get_next_sync_committee_indices` selects (hash recomputed for every
+candidate), for every fuel (so also: one terminates iff the other does), and `ProcessSyncCommitteeUpdates` rotates
+at the same epochs. Both sides are given the same list of candidates `active`: in `ProcessEpoch` zrnt passes
+`epc.NextEpoch.ActiveIndices`, computed from the registry at the START of the epoch transition, the spec reads the
+registry as updated by `process_registry_updates`; the two lists agree when `MAX_SEED_LOOKAHEAD ≥ 1` (not proved
+here; for `MAX_SEED_LOOKAHEAD = 0` they differ and the correspondence reports the known finding). -/
+theorem syncCommittee_rotation_eq (cfg : Config) (vals : List Validator) (active : List Nat) (seed : Bytes)
+    (shuffled : Nat → Nat) (fuel cur : Nat) (current next computed : Option SyncCommittee) :
+    Impl.computeSyncCommitteeIndices cfg vals active seed shuffled fuel =
+      sync_committee_indices_loop cfg vals active seed shuffled fuel 0 [] ∧
+    Impl.processSyncCommitteeUpdates cfg (cur + 1) current next computed =
+      process_sync_committee_updates_pure cfg cur current next computed := by
+  constructor
+  · exact Lemmas.syncLoop_eq cfg vals active seed shuffled fuel 0 ZERO32 [] (fun h => absurd rfl h)
+  · unfold Impl.processSyncCommitteeUpdates process_sync_committee_updates_pure
+    simp
+
 end Zrnt.Proofs.C02
